@@ -12,6 +12,10 @@ fn main() {
     // Workers inherit the environment: an aborting worker must not spend seconds
     // symbolising a backtrace. (Set before any thread exists.)
     unsafe { std::env::set_var("RUST_BACKTRACE", "0") };
+    // Model loading may start rten's thread pool (constant propagation). One
+    // thread is enough for loading and keeps hundreds of short-lived forked
+    // children from spinning up 16 threads each.
+    unsafe { std::env::set_var("RTEN_NUM_THREADS", "1") };
     if let Some(w) = vp_core::isolate::worker_name() {
         match w.as_str() {
             "c38" => c38::worker(),
